@@ -12,6 +12,7 @@ EXPLANATION = (
     "(R-C01-conserve) in Router::consume no DataRequest is dropped (drop-elaborated MIR), each ConsumeStatus arm moves the request into exactly one home (requests / skipped_requests / DataLog::park) and pauses with the paired reason; "
     "(R-C01-tryready) the decision table of Tracker::try_ready, enumerated exhaustively by abstract interpretation over its finite enum domain (5 reasons x 4 states), contains the wake-ups delivery depends on, and reschedule() queues the id exactly when try_ready returns Some; "
     "(R-C01-start) a new subscription's DataRequest starts at next_native_offset() of its own filter; (R-C01-cache) a new filter is added to the topic->filters cache for already cached topics, and DataLog::matches routes through protocol::matches; "
+    "(R-C01-unsubscribe) UnsubAckReason::Success is pushed only after the connection left the filter's subscriber set, its own subscription set, its tracker and the filter's parked waiters; "
     "(R-C01-match) at the publish-side call sites of protocol::matches(topic, filter) the iterated map's key is passed in the position of its role. "
     "NOT decided: acceptance order = delivery order, once-per-subscription, payload/topic integrity, granted QoS, retention proviso, cursor arithmetic (value/history dependent).")
 ASSUMPTIONS = ["rustc MIR construction is correct", "the scheduler's ready queue is eventually polled (run_inner loop, not analysed for fairness)"]
@@ -118,8 +119,62 @@ def run(ctx):
     ctx.guarded("R-C01-tryready", tryready, ctx, prog)
     ctx.guarded("R-C01-start", start, ctx, prog)
     ctx.guarded("R-C01-cache", cache, ctx, prog)
+    ctx.guarded("R-C01-unsubscribe", unsubscribe, ctx, prog)
     ctx.guarded("R-C01-match", matchroles.check, ctx, "R-C01-match", prog, r"^router::logs::DataLog::matches$", "topic -> subscribed filters on publish")
     ctx.guarded("R-C01-match", matchroles.check, ctx, "R-C01-match", prog, r"^router::logs::DataLog::next_native_offset$", "new filter -> cached topics")
+
+
+def unsubscribe(ctx, prog):
+    """'no message reaches a connection without a matching subscription': a filter is reported as unsubscribed
+    (UnsubAckReason::Success) only after the connection was taken out of every place delivery is driven from —
+    the filter's subscriber set, the connection's subscription set, its tracker (Scheduler::untrack) and the
+    filter's parked waiters (DataLog::remove_waiters_for_id) — each addressed with the handler's own id / the
+    filter being processed."""
+    rule = "R-C01-unsubscribe"
+    body = prog.one(r"^router::routing::Router::handle_device_payload$")
+    succ = []
+    for bb, t in body.calls():
+        if body.is_cleanup(bb) or not callee_path(t).endswith("Vec::<T, A>::push"):
+            continue
+        src = flatten_src(provenance(body, t["args"][1]))
+        if any(s_.kind == "agg" and getattr(s_, "adt", "").endswith("UnsubAckReason") and s_.var == "Success" for s_ in src):
+            succ.append(bb)
+    if len(succ) != 1:
+        raise AnchorMissing("handle_device_payload: expected one reasons.push(UnsubAckReason::Success), found %d" % len(succ))
+    sb = succ[0]
+    dom = dominators(body)
+    need = [
+        ("subscriber set of the filter", r"HashSet::<T, S, A>::remove$|HashSet::<T, S>::remove$", None),
+        ("connection.subscriptions", r"HashSet::<T, S, A>::remove$|HashSet::<T, S>::remove$", "subscriptions"),
+        ("tracker (Scheduler::untrack)", r"Scheduler::untrack$", None),
+        ("parked waiters (DataLog::remove_waiters_for_id)", r"DataLog::remove_waiters_for_id$", None),
+    ]
+    for what, cre, recv in need:
+        hits = []
+        for bb, t in body.calls():
+            if body.is_cleanup(bb) or not re.search(cre, callee_path(t)) or bb not in dom.get(sb, ()):
+                continue
+            fs = [x.split(".")[-1] for x in (receiver_fields(body, t) or [])]
+            if recv is not None and fs[-1:] != [recv]:
+                continue
+            if recv is None and "HashSet" in cre and fs[-1:] == ["subscriptions"]:
+                continue
+            hits.append((bb, t))
+        if not hits:
+            ctx.violation(rule, body.id, "Success without: " + what,
+                          "an UNSUBSCRIBE is acknowledged as successful on a path that did not remove the connection from the %s: it keeps receiving (or keeps a stale request) for a filter it no longer subscribes to" % what,
+                          site=body.loc(body.blocks[sb]["t"].get("sp")))
+            continue
+        # id-taking calls are addressed with the handler's own id
+        okid = True
+        for bb, t in hits:
+            if re.search(r"untrack$|remove_waiters_for_id$", callee_path(t)):
+                ids = flatten_src(provenance(body, t["args"][1]))
+                okid = okid and bool(ids) and all(x.kind == "param" and x.l == 2 for x in ids)
+        if okid:
+            ctx.ok(rule, body.id, "Success only after removal from the " + what, site=body.loc(hits[0][1].get("sp")))
+        else:
+            ctx.violation(rule, body.id, "removal with a foreign id: " + what, "the removal from the %s is not addressed with the handler's own connection id" % what, site=body.loc(hits[0][1].get("sp")))
 
 
 # ------------------------------------------------------------------------------------------
